@@ -519,6 +519,11 @@ func (p *Pattern) matchIdentical(state *MatcherState, sub *pattern, typ types.Ty
 		numParams := sub.value.(int)
 		params := sub.subs[:numParams]
 		results := sub.subs[numParams:]
+		// Patterns have no syntax for a variadic parameter: func([]int) is not func(...int).
+		// Only a trailing $*_ can stand for parameters that include a variadic one.
+		if typ.Variadic() && (numParams == 0 || params[numParams-1].op != opVarSeq) {
+			return false
+		}
 		return p.matchIdenticalFielder(state, params, &tupleFielder{x: typ.Params()}, 0, func() bool {
 			return p.matchIdenticalFielder(state, results, &tupleFielder{x: typ.Results()}, 0, k)
 		})
